@@ -124,18 +124,37 @@ fn se_or_ext_string(input: Span) -> PResult<Value> {
 }
 
 fn single_expression(input: Span) -> PResult<Value> {
+    let (input1, a) = and_expression(input)?;
+    fold_many0(
+        (
+            delimited(
+                multispace0,
+                value(Operator::Or, tag("or")),
+                multispace1,
+            ),
+            and_expression,
+            position,
+        ),
+        move || a.clone(),
+        |a, (op, b, end)| {
+            let pos = input.up_to(&end).to_owned();
+            BinOp::new(a, false, op, false, b, pos).into()
+        },
+    )
+    .parse(input1)
+}
+
+/// `and` binds tighter than `or`.
+fn and_expression(input: Span) -> PResult<Value> {
     let (input1, a) = logic_expression(input)?;
     fold_many0(
         (
             delimited(
                 multispace0,
-                alt((
-                    value(Operator::And, tag("and")),
-                    value(Operator::Or, tag("or")),
-                )),
+                value(Operator::And, tag("and")),
                 multispace1,
             ),
-            single_expression,
+            logic_expression,
             position,
         ),
         move || a.clone(),
